@@ -19,6 +19,21 @@ QW_TAIL = ("            return self._actually_write()\n"
 CT_TAIL = ("        d.addCallback(lambda _: self._really_put_crypttext_hashes(hashes))\n"
            "        return d\n")
 
+# CHKUploader.set_shareholders (C06.12)
+SH_ASSERT = ("        assert len(buckets) == sum([len(tracker.buckets)\n"
+             "                                    for tracker in upload_trackers]), \\\n"
+             "            \"%s (%s) != %s (%s)\" % (\n"
+             "                len(buckets),\n"
+             "                buckets,\n"
+             "                sum([len(tracker.buckets) for tracker in upload_trackers]),\n"
+             "                [(t.buckets, t.get_serverid()) for t in upload_trackers]\n"
+             "                )\n")
+SH_LOOP = ("        for tracker in upload_trackers:\n"
+           "            buckets.update(tracker.buckets)\n"
+           "            for shnum in tracker.buckets:\n"
+           "                self._server_trackers[shnum] = tracker\n"
+           "                servermap.setdefault(shnum, set()).add(tracker.get_serverid())\n")
+
 # Encoder.done / close_all_shareholders / CHKUploader._encrypted_done (C06.11)
 DONE_STORE = "        # update our sharemap\n        self._shares_placed = set(self.landlords.keys())\n"
 CLOSE_LOOP = ("        dl = []\n        for shareid in list(self.landlords):\n"
@@ -363,6 +378,60 @@ MUTANTS = [
       "ANALYSIS-ERROR", edits=[(UP, "        results = self._encrypted_done(verifycap)",
                                 "        results = self._make_results(verifycap)")]),
     M("vanish-proxy-close", LY, "    def close(self):", "    def finish(self):", "ANALYSIS-ERROR"),
+    # ---- C06.12 one writer per share: duplicates between trackers are detected before the hand-over
+    M("dup-assert-compares-two-collapsed-counts", UP, SH_ASSERT,
+      "        assert len(buckets) == len(self._server_trackers), \\\n            \"%s (%s) != %s\" % (\n"
+      "                len(buckets),\n                buckets,\n                len(self._server_trackers),\n                )\n", "C06.12"),
+    M("dup-assert-removed", UP, SH_ASSERT, "", "C06.12"),
+    M("dup-only-logged", UP, SH_ASSERT,
+      "        if len(buckets) != sum([len(tracker.buckets) for tracker in upload_trackers]):\n"
+      "            self.log(\"share allocated on two servers: %s\" % (buckets,), level=log.WEIRD)\n", "C06.12"),
+    M("dup-assert-wrong-direction", UP, SH_ASSERT,
+      "        assert len(buckets) <= sum([len(tracker.buckets) for tracker in upload_trackers]), buckets\n", "C06.12"),
+    M("servermap-counts-tracker-for-all-merged-shares", UP,
+      "            for shnum in tracker.buckets:\n                self._server_trackers[shnum] = tracker\n"
+      "                servermap.setdefault(shnum, set()).add(tracker.get_serverid())\n",
+      "            for shnum in tracker.buckets:\n                self._server_trackers[shnum] = tracker\n"
+      "            for shnum in buckets:\n"
+      "                servermap.setdefault(shnum, set()).add(tracker.get_serverid())\n", "C06.12"),
+    M("dup-per-share-only-logged", UP, SH_LOOP + SH_ASSERT,
+      "        for tracker in upload_trackers:\n"
+      "            for shnum, bucket in tracker.buckets.items():\n"
+      "                if shnum in buckets:\n"
+      "                    self.log(\"share %d allocated twice\" % shnum, level=log.WEIRD)\n"
+      "                buckets[shnum] = bucket\n"
+      "                self._server_trackers[shnum] = tracker\n"
+      "                servermap.setdefault(shnum, set()).add(tracker.get_serverid())\n", "C06.12"),
+    M("benign-dup-total-hoisted", UP, SH_ASSERT,
+      "        total = sum(len(t.buckets) for t in upload_trackers)\n        held = len(buckets)\n"
+      "        assert total == held, (buckets, [(t.buckets, t.get_serverid()) for t in upload_trackers])\n", None),
+    M("benign-dup-explicit-raise", UP, SH_ASSERT,
+      "        if len(buckets) != sum([len(tracker.buckets) for tracker in upload_trackers]):\n"
+      "            raise AssertionError(\"share allocated on two servers: %s\" % (buckets,))\n", None),
+    M("benign-dup-counter-in-loop", UP, SH_ASSERT + "        encoder.set_shareholders(buckets, servermap)\n",
+      "        assert len(self._server_trackers) >= allocated, (buckets, allocated)\n"
+      "        encoder.set_shareholders(buckets, servermap)\n", None,
+      edits=[(UP, "        buckets = {}\n        servermap = already_serverids.copy()\n        for tracker in upload_trackers:\n"
+              "            buckets.update(tracker.buckets)\n",
+              "        buckets = {}\n        allocated = 0\n        servermap = already_serverids.copy()\n"
+              "        for tracker in upload_trackers:\n            allocated += len(tracker.buckets)\n"
+              "            buckets.update(tracker.buckets)\n")]),
+    M("benign-dup-checked-per-share", UP, SH_LOOP + SH_ASSERT,
+      "        for tracker in upload_trackers:\n"
+      "            for shnum, bucket in tracker.buckets.items():\n"
+      "                assert shnum not in buckets, (shnum, tracker.get_serverid(), buckets)\n"
+      "                buckets[shnum] = bucket\n"
+      "                self._server_trackers[shnum] = tracker\n"
+      "                servermap.setdefault(shnum, set()).add(tracker.get_serverid())\n", None),
+    M("benign-dup-share-list", UP, SH_ASSERT,
+      "        assert len(all_shnums) == len(buckets), (all_shnums, buckets)\n", None,
+      edits=[(UP, "        buckets = {}\n        servermap = already_serverids.copy()\n        for tracker in upload_trackers:\n"
+              "            buckets.update(tracker.buckets)\n",
+              "        buckets = {}\n        all_shnums = []\n        servermap = already_serverids.copy()\n"
+              "        for tracker in upload_trackers:\n            all_shnums.extend(tracker.buckets)\n"
+              "            buckets.update(tracker.buckets)\n")]),
+    M("vanish-chk-set-shareholders-handover", UP, "        encoder.set_shareholders(buckets, servermap)\n",
+      "        encoder.set_landlords(buckets, servermap)\n", "ANALYSIS-ERROR"),
     # ---- vanished anchor
     M("vanish-remove-shareholder", EN,
       "    def _remove_shareholder(self, why, shareid, where):", "    def _drop_shareholder(self, why, shareid, where):",
